@@ -233,7 +233,31 @@ def t_clear(E):
     E.prove(r2._seed == SEED0, 'a new generator starts at the fixed seed')
 
 
+def t_randomize_statement(E, kind):
+    """RANDOMIZE n hands n to the reseeding unchanged - in its own type, bit for bit (the seed depends on
+    the internal bytes of the argument, so a conversion on the way changes the sequence)."""
+    from pcbasic.basic import implementation
+    vals = values_env()
+    cls = {'int': numbers.Integer, 'sng': numbers.Single, 'dbl': numbers.Double}[kind]
+    v = E.new(cls, E.bytes('arg', cls.size), vals)
+    v0 = snapshot(v)
+    got = []
+    class _R(object):
+        _pyvc_trusted = True
+        def reseed(self, val):
+            got.append((type(val), list(to_cells(val._buffer))))
+    impl = object.__new__(implementation.Implementation)
+    impl.randomiser = _R()
+    impl.values = vals
+    r = E.call(impl.randomize_, iter([v]))
+    E.prove(not r.raised and len(got) == 1, 'RANDOMIZE n reseeds once')
+    if len(got) == 1:
+        E.prove(got[0][0] is cls, 'with the argument in its own type')
+        E.prove(same_bytes(got[0][1], v0), 'and its own bytes')
+
+
 TASKS = [
+    Task('Implementation.randomize_', t_randomize_statement, cases=[{'kind': k} for k in ('int', 'sng', 'dbl')]),
     Task('Randomiser constants', t_constants),
     Task('Randomiser._cycle', t_cycle),
     Task('lemma: composition of affine maps', t_compose),
